@@ -141,20 +141,20 @@ def reparse_cause(msg, text):
         k = int(m.group(1)) - 1
         if 0 <= k < len(ls):
             off = sum(len(x) + 1 for x in ls[:k]) + int(m.group(2)) - 1
-            starts = [x.start() for x in re.finditer(r"\((data|export|import|func|global|memory|table|type|elem|start)\b", text[:off + 1])]
+            starts = [x.start() for x in re.finditer(r"\((data|export|import|func|global|memory|table|type|elem|start)\b", text[:off + 12]) if x.start() <= off]
             # the field (indentation level 1) that contains the error position
             starts = [x for x in starts if x == 0 or text[x - 1] == "\t" and (x < 2 or text[x - 2] != "\t")]
             line = text[starts[-1]:starts[-1] + 200].split("\n")[0] if starts else ls[k].strip()
     if re.match(r"\(data\$", line):
-        return "data-name-no-space"
+        return "data-name:no-space"
     if re.match(r"\(export \"", line):
-        return "export-name-unescaped"
+        return "export-name:unescaped"
     if re.match(r"\(import ", line):
-        return "import-name-escaping"
+        return "import-name:go-quoting"
     if re.match(r"\(func \d", line) or re.search(r"\((param|local) \d+ ", line) or re.match(r"\((global|memory|table|type) \d+[a-zA-Z_.$]", line):
-        return "ident-looks-numeric"
+        return "ident:digit-prefix-printed-as-index"
     w = re.match(r"\(?([A-Za-z_.0-9]+)", line)
-    return "other:" + (w.group(1) if w else "?")
+    return "reparse-fails:other:" + (w.group(1) if w else "?")
 
 
 def gen_inputs(ctx):
@@ -276,13 +276,13 @@ def run(ctx):
         if d["p2"] != "eq":
             k2, p2 = dec(d["p2"])
             if k2 != "ok":
-                viol(r, "reparse-fails:" + reparse_cause(p2, r["text"]), "printed text is rejected by the parser: %s" % p2)
+                viol(r, reparse_cause(p2, r["text"]), "printed text is rejected by the parser: %s" % p2)
             else:
                 a, b = r["text"].split("\n"), p2.decode("utf-8", "replace").split("\n")
                 first = next((x for x, y in zip(a, b) if x != y), a[len(b)] if len(a) > len(b) else "")
-                cause = "i64.store-align2-dropped" if ("i64.store-align2" in r["cls"] and "i64.store" in first) else \
-                        ("import-name-escaping" if first.strip().startswith("(import") else "other:" + first.strip()[:30])
-                viol(r, "idempotence:" + cause, "print(parse(print)) differs from print at line %r" % first.strip())
+                cause = "memarg:i64.store-align2-dropped" if ("i64.store-align2" in r["cls"] and "i64.store" in first) else \
+                        ("import-name:go-quoting" if first.strip().startswith("(import") else "idempotence:other:" + first.strip()[:30])
+                viol(r, cause, "print(parse(print)) differs from print at line %r" % first.strip())
         if not r["w1ok"]:
             dist["not_assemblable"] += 1
             continue
@@ -308,7 +308,7 @@ def run(ctx):
                 elif sec == "code" and "i64.store-align2" in cls:
                     key = "memarg:i64.store-align2-dropped"
                 elif sec == "import" and "import-name-special" in cls:
-                    key = "import:name-escaping"
+                    key = "import-name:go-quoting"
                 elif sec == "custom:name" and ("import-param-names" in cls or "type-param-names" in cls):
                     key = "names:import-or-type-param-names-dropped"
                 else:
